@@ -52,7 +52,8 @@ def cases(draw):
                 forever=[draw(st.integers(0, 4)) == 0 for _ in range(n)],
                 hkeys=[draw(st.integers(0, 15)) for _ in range(n)],
                 order=list(draw(st.permutations(list(range(n))))),
-                top=draw(st.sampled_from(['pure', 'nestable'])), program=program, tree=tree)
+                top=draw(st.sampled_from(['pure', 'nestable'])), program=program, tree=tree,
+                ran=draw(st.integers(0, 3)) == 0)
 
 
 def strategy(tier):
@@ -130,12 +131,46 @@ def build_tree(spec, name, acc_jobs, acc_scheds, top):
     return s
 
 
+class RJob(SJob):
+    """runnable: a forever job never ends by itself, the others end at once"""
+
+    async def co_run(self):
+        if self.forever:
+            import asyncio
+            await asyncio.get_running_loop().create_future()
+        return self.v_id
+
+    async def co_shutdown(self):
+        pass
+
+
+def run_once(sched):
+    """history: the scheduler has been run (forever jobs get cancelled at the end)"""
+    import asyncio
+    loop = asyncio.new_event_loop()
+    asyncio.set_event_loop(loop)
+    try:
+        with quiet():
+            return loop.run_until_complete(asyncio.wait_for(sched.co_run(), 1))
+    except Exception:
+        return None
+    finally:
+        for task in asyncio.all_tasks(loop):
+            task.cancel()
+        try:
+            loop.run_until_complete(asyncio.sleep(0))
+        except BaseException:
+            pass
+        loop.close()
+        asyncio.set_event_loop(None)
+
+
 def evaluate(case):
     res = Result()
     nontrivial = []
     n = case['n']
     with quiet():
-        jobs = [SJob('n%d' % i, hkey=case['hkeys'][i], forever=case['forever'][i])
+        jobs = [RJob('n%d' % i, hkey=case['hkeys'][i], forever=case['forever'][i])
                 for i in range(n)]
         outs = [SJob('x%d' % i, hkey=i) for i in range(case.get('outsiders', 0))]
         for a, b in case['edges']:
@@ -144,6 +179,12 @@ def evaluate(case):
             jobs[b].requires(outs[o])
         ordered = [jobs[i] for i in case['order']]
         sched = SPure('t', *ordered) if case['top'] == 'pure' else SSched('t', *ordered)
+    forever_is_sink = not any(case['forever'][a] for a, b in case['edges'])
+    if case.get('ran') and not case.get('out_edges') and not all(case['forever']) \
+            and forever_is_sink:
+        # queries and edits also happen on a scheduler that has already been run
+        if run_once(sched) is True:
+            res.label('history:scheduler-already-ran')
     live = {'n%d' % i: jobs[i] for i in range(n)}
     starts = ['n%d' % s for s in case['starts']]
     check_queries(sched, live, starts, res, 'initial', nontrivial)
@@ -160,7 +201,7 @@ def evaluate(case):
             if op == 'addjob':
                 nm = 'n%d' % counter
                 counter += 1
-                j = SJob(nm, hkey=counter % 16, required=[live[x]])
+                j = RJob(nm, hkey=counter % 16, required=[live[x]])
                 sched.add(j)
                 live[nm] = j
             elif op == 'addedge':
